@@ -73,8 +73,12 @@ def run_one(args) -> Tuple[str, bool, str]:
         shutil.rmtree(tmp, ignore_errors=True)
 
 
-def run(prop: Optional[str], jobs: int, repo: str = "/repo", quiet: bool = False):
+def run(prop: Optional[str], jobs: int, repo: str = "/repo", quiet: bool = False, seed: int = 0):
     ms = [m for m in MUTANTS if prop is None or m.prop == prop]
+    if seed:
+        import random
+
+        random.Random(seed).shuffle(ms)
     t0 = time.time()
     results = []
     with ProcessPoolExecutor(max_workers=jobs) as ex:
